@@ -286,7 +286,7 @@ pub fn check(case: &Case) -> Verdict {
 }
 
 fn check_cli(case: &Case, lines: &[model::Line], expect: &[Option<bool>]) -> Option<Fail> {
-    let dir = TempDir::new("c01");
+    let dir = TempDir::fast("c01");
     dir.write("f", &case.input.0);
     let mut rg = Rg::new(&dir.path).args(["-n", "--no-heading", "--no-config", "--color", "never", "-a", "--no-mmap"]);
     match case.pat.case {
@@ -387,7 +387,7 @@ pub fn run(pc: &PropCtx) {
     );
     pc.assume("regex-automata's matching of one small haystack is the trusted base shared by oracle and implementation");
     pc.assume("CRLF mode: a line with a bare CR is asserted only when 'CR splits the line for the regex' and 'no match contains CR' agree");
-    let cases = pc.tier.pick(30_000, 600_000);
+    let cases = pc.tier.pick(60_000, 800_000);
     pc.run_tape("line_match", cases, (128, 1500), gen_case, check);
     pc.require_class("line_match:fast_line_regex_present", (cases as u64) / 200);
 }
